@@ -1262,8 +1262,15 @@ def less_travelled_cases(ctx, rng, shared):
         else:
             with open(first, "w") as f:
                 f.write(t0.to_json("c15-harness"))
-        loaded = load_table(first)
         tg = ("second-write", "source:%s" % ("hdf5" if i % 2 == 0 else "json"))
+        try:
+            loaded = load_table(first)
+        except Exception as e:
+            # a file the library has just written from a valid table does not load: a failed case, not a harness crash
+            ctx.case({"second_write_source": core.spec_obs(spec), "format": tg[1]}, nontrivial=True)
+            ctx.fail({"spec": core.spec_obs(spec), "source": tg[1]}, "written_loads", tg,
+                     detail={"error": "%s: %s" % (type(e).__name__, e)})
+            continue
         written_json_case(ctx, spec, "live", tags=tg, path=shared, t=loaded, fvs=(None,))
         # nested metadata is outside what the HDF5 writer takes (per-category homogeneous values): the
         # JSON-sourced table is written to HDF5 without its nested category
